@@ -160,6 +160,16 @@ CHECKS = [
         "values nor physical ranges beyond the guards.",
         "note": BASE_NOTE,
     },
+    {
+        "id": "C14",
+        "technique": "static analysis: path rule over the CFG of the value reader, constant/operator rules on the expiry predicate, input-dependence of the lifetime function, store-key rule",
+        "text": "Decides that every path on which msg._expired was true ends in `return None` in the value reader; that expiry is "
+        ">= HAS_EXPIRED with HAS_EXPIRED = 2.0, a 3 s grace subtracted from the age, the latch tested before any recomputation and "
+        "CANT_EXPIRE -> False; that pkt_lifespan returns a timedelta on every path from verb/code/array-ness/the 3220 id only (no clock) and "
+        "the schema's lifespan rows fold to timedelta|False|None; and that the message store is unconditional and keyed by the message's own "
+        "code/verb/context. Does not decide freshness under interleaving as a trace property.",
+        "note": BASE_NOTE,
+    },
 ]
 
 NOT_APPLICABLE = [
